@@ -94,6 +94,14 @@ func CallRecv(c ssa.CallInstruction) ssa.Value {
 func Strip(v ssa.Value) ssa.Value {
 	for i := 0; i < 32 && v != nil; i++ {
 		switch x := v.(type) {
+		case *ssa.Parameter:
+			// while a helper is analysed on behalf of one of its calls (liftCtx), its parameters
+			// stand for the arguments of that call
+			if a := liftArg(x); a != nil {
+				v = a
+				continue
+			}
+			return v
 		case *ssa.ChangeType:
 			v = x.X
 		case *ssa.Convert:
@@ -107,6 +115,15 @@ func Strip(v ssa.Value) ssa.Value {
 				if s := singleStore(x.X); s != nil {
 					v = s
 					continue
+				}
+				// a variable captured by a local closure: the cell is the enclosing function's
+				if fv, ok := x.X.(*ssa.FreeVar); ok {
+					if b := freeVarBinding(fv); b != nil {
+						if s := singleStore(b); s != nil {
+							v = s
+							continue
+						}
+					}
 				}
 				if s := reachingStore(x); s != nil {
 					v = s
@@ -358,6 +375,20 @@ func (c Cond) CmpIs(op token.Token, L, R func(ssa.Value) bool) Pol {
 	try := func(x, y ssa.Value, o token.Token) Pol {
 		if !L(x) || !R(y) {
 			return PolNone
+		}
+		// a length is never negative: len(x) > 0 is len(x) != 0, len(x) <= 0 is len(x) == 0
+		op := op
+		if k, isC := ConstInt(y); isC && k == 0 && VLen(func(ssa.Value) bool { return true })(x) {
+			norm := func(t token.Token) token.Token {
+				switch t {
+				case token.GTR:
+					return token.NEQ
+				case token.LEQ:
+					return token.EQL
+				}
+				return t
+			}
+			o, op = norm(o), norm(op)
 		}
 		if o == op {
 			return PolTrue
@@ -842,4 +873,36 @@ func TypeIs(name string, X func(ssa.Value) bool, T types.Type) Atom {
 			return ok && ta.CommaOk && types.Identical(ta.AssertedType, T) && X(ta.X)
 		})
 	}}
+}
+
+// freeVarBinding returns the value bound to the free variable where its closure is created (the
+// address of the captured variable), when the closure is created at exactly one place.
+func freeVarBinding(fv *ssa.FreeVar) ssa.Value {
+	cl := fv.Parent()
+	if cl == nil || cl.Parent() == nil {
+		return nil
+	}
+	idx := -1
+	for i, f := range cl.FreeVars {
+		if f == fv {
+			idx = i
+		}
+	}
+	if idx < 0 {
+		return nil
+	}
+	var bound ssa.Value
+	n := 0
+	for _, b := range cl.Parent().Blocks {
+		for _, in := range b.Instrs {
+			if mc, ok := in.(*ssa.MakeClosure); ok && mc.Fn == ssa.Value(cl) && idx < len(mc.Bindings) {
+				bound = mc.Bindings[idx]
+				n++
+			}
+		}
+	}
+	if n != 1 {
+		return nil
+	}
+	return bound
 }
